@@ -85,9 +85,17 @@ func (n *recNode) Close(ctx context.Context) error {
 	if n.closes > 1 {
 		n.h.oracle("C06 instance %d closed %d times", n.inst, n.closes)
 	}
+	sib := n.h.rpanSiblings
 	n.h.mu.Unlock()
 	if n.slowClose > 0 {
 		time.Sleep(n.slowClose)
+	}
+	// while RemovePipelineAndNodes closes the nodes it detached, the pipeline is gone and none of its
+	// (otherwise unreferenced) nodes is "in use" any more: a RemoveNode from inside Close says "not found"
+	for _, id := range sib {
+		if err := n.h.b.RemoveNode(ctx, nid(id)); err != nil && strings.Contains(err.Error(), "still in use") {
+			n.h.oracle("C06 during RemovePipelineAndNodes (from a node's Close) RemoveNode(%d) was refused as in use although no registered pipeline lists it any more", id)
+		}
 	}
 	if n.closeFails {
 		return instErr{n.inst}
@@ -119,6 +127,7 @@ type regHarness struct {
 	st          *stats
 	caseOps     []string
 
+	rpanSiblings []int // during rpan: the pipeline's node ids that no OTHER pipeline lists
 	divergedBy map[string]bool
 	diverged bool // an oracle failed in this case: the spec state may no longer match, skip to the next case
 
@@ -553,7 +562,23 @@ func (h *regHarness) exec(line string) string {
 		ty, pid := atoi(f[1]), atoi(f[2])
 		before := h.observable()
 		h.closed = nil
+		if spx, okx := h.pipes[[2]int{ty, pid}]; okx {
+			var sibs []int
+			seenS := map[int]bool{}
+			for _, id := range spx.ids {
+				if !seenS[id] && h.listedBy(id) == 1 {
+					sibs = append(sibs, id)
+				}
+				seenS[id] = true
+			}
+			h.mu.Lock()
+			h.rpanSiblings = sibs
+			h.mu.Unlock()
+		}
 		ok, err := h.b.RemovePipelineAndNodes(ctx, tyS(ty), pidS(pid))
+		h.mu.Lock()
+		h.rpanSiblings = nil
+		h.mu.Unlock()
 		sp, exists := h.pipes[[2]int{ty, pid}]
 		if ok != exists {
 			h.oracle("C06 RemovePipelineAndNodes(%d,%d)=%v but pipeline registered=%v", ty, pid, ok, exists)
